@@ -33,15 +33,18 @@ pub fn f64_powi(base: f64, exp: i32) -> f64 {
 	(1u64 << exp) as f64
 }
 
-/// Hand-rolled executor for futures that never really suspend.
+/// Hand-rolled executor for futures that never really suspend. The completed future is leaked on purpose:
+/// dropping an async state machine drags the drop glue of every value it may hold (anyhow::Error -> Backtrace ->
+/// io::Error ...) into the formula although the state is known to be "finished".
 pub fn block_on<F: std::future::Future>(fut: F) -> F::Output {
 	use std::task::{Context, Poll, Waker};
-	let mut fut = std::pin::pin!(fut);
+	let mut fut = Box::pin(fut);
 	let waker = Waker::noop();
 	let mut cx = Context::from_waker(waker);
 	let mut n = 0;
 	loop {
 		if let Poll::Ready(v) = fut.as_mut().poll(&mut cx) {
+			std::mem::forget(fut);
 			return v;
 		}
 		n += 1;
@@ -56,10 +59,20 @@ pub fn set_alloc_limit(input_len: usize) {
 	unsafe { ALLOC_LIMIT = 8 * input_len + 64 };
 }
 
-/// stands in for `alloc::vec::from_elem::<T>` (what `vec![elem; n]` expands to)
+/// stands in for `alloc::vec::from_elem::<T>` (what `vec![elem; n]` expands to): checks the size against the
+/// monitor's limit, then builds the vector without a data-dependent loop (byte-sized elements: one memset)
 pub fn vec_from_elem<T: Clone>(elem: T, n: usize) -> Vec<T> {
 	let limit = unsafe { ALLOC_LIMIT };
 	assert!(n <= limit, "allocation out of proportion to the input size (announced length is trusted)");
+	if std::mem::size_of::<T>() == 1 && n > 0 {
+		unsafe {
+			let layout = std::alloc::Layout::array::<T>(n).unwrap();
+			let p = std::alloc::alloc(layout) as *mut T;
+			let byte = *(&elem as *const T as *const u8);
+			std::ptr::write_bytes(p as *mut u8, byte, n);
+			return Vec::from_raw_parts(p, n, n);
+		}
+	}
 	let mut v = Vec::with_capacity(n);
 	let mut i = 0;
 	while i < n {
